@@ -29,7 +29,10 @@ WellFormed(fs) == fs.sub = "absent" => fs.c = "absent"
 (* p = "L" names  what = "dir":  the prefix of 4 / 8 / 15 components (len 1 / 2 / 3 = about      *)
 (* 1 / 2 / 3.8 KiB), an existing directory;  what = "miss": <that prefix>/miss-<idx>, absent     *)
 (* until somebody creates it (ls = regular files, lk = symlinks created there).                  *)
-Internal(f) == [a |-> f.a, b |-> f.b, sub |-> f.sub, c |-> f.c, ns |-> 1..f.n, ld |-> f.ld, ls |-> {}, lk |-> {}]
+Planted(k) == IF k \in {"regular", "unreadable"} THEN [size |-> 8, og |-> TRUE] ELSE [size |-> 0, og |-> FALSE]
+Internal(f) == [a |-> f.a, b |-> f.b, sub |-> f.sub, c |-> f.c, ns |-> 1..f.n, ld |-> f.ld, ls |-> {}, lk |-> {},
+                ct |-> [a |-> Planted(f.a), b |-> Planted(f.b), c |-> Planted(IF f.sub = "dir" THEN f.c ELSE "absent"),
+                        target |-> Planted("regular")]]
 LongKind(fs, x) ==
   IF fs.ld = 0 THEN "noparent"
   ELSE IF x.what = "dir" THEN "dir"
@@ -37,8 +40,28 @@ LongKind(fs, x) ==
   ELSE IF <<x.len, x.idx>> \in fs.lk THEN "symreg" ELSE "absent"
 
 OpenPaths == {"a", "b", "c", "dev", "target"}      \* + "n" with an index (numbered file)
-Modes == {"r", "w", "rw"}     \* O_RDONLY | O_WRONLY|O_CREAT|O_TRUNC | O_RDWR|O_CREAT
-Creat(m) == m \in {"w", "rw"}
+(* Flag combinations a caller can legitimately request (name -> access mode, flags).  Of the   *)
+(* flags only O_APPEND and O_SYNC stay visible in F_GETFL of the descriptor (StatusFlags).    *)
+Modes == {"r", "w", "rw", "a", "ac", "rwa", "x", "rwt", "ws", "rc"}
+Acc(m) == CASE m \in {"r", "rc"} -> "r" [] m \in {"w", "a", "ac", "x", "ws"} -> "w" [] OTHER -> "rw"
+Flags(m) ==
+  CASE m = "r"   -> {}                          \* O_RDONLY
+    [] m = "rc"  -> {"CLOEXEC"}                 \* O_RDONLY|O_CLOEXEC
+    [] m = "w"   -> {"CREAT", "TRUNC"}          \* O_WRONLY|O_CREAT|O_TRUNC
+    [] m = "rw"  -> {"CREAT"}                   \* O_RDWR|O_CREAT
+    [] m = "a"   -> {"APPEND"}                  \* O_WRONLY|O_APPEND
+    [] m = "ac"  -> {"APPEND", "CREAT"}         \* O_WRONLY|O_APPEND|O_CREAT
+    [] m = "rwa" -> {"APPEND"}                  \* O_RDWR|O_APPEND
+    [] m = "x"   -> {"CREAT", "EXCL"}           \* O_WRONLY|O_CREAT|O_EXCL
+    [] m = "rwt" -> {"TRUNC"}                   \* O_RDWR|O_TRUNC
+    [] m = "ws"  -> {"SYNC", "CLOEXEC"}         \* O_WRONLY|O_SYNC|O_CLOEXEC
+StatusFlags == {"APPEND", "SYNC", "NONBLOCK", "DIRECT"}
+Creat(m) == "CREAT" \in Flags(m)
+Perms == {420, 384, 0}        \* 0644, 0600, 0000: mode of a file the request creates (init runs with umask 0)
+(* Content of the files at a, b, c and target is tracked as [size, og]: a planted regular file *)
+(* holds the 8 bytes "planted\n" (og = these original bytes are still at its start).          *)
+Tracked == {"a", "b", "c", "target"}
+TokenLen == 3                 \* the driver writes 3 bytes through every writable descriptor it got for a tracked path
 MaxBatch == 253               \* descriptors one SCM_RIGHTS message can carry
 
 KindOf(fs, p) ==
@@ -52,20 +75,32 @@ SetKind(fs, p, k) ==
 
 ItemKind(fs, it) == IF it.p = "n" THEN (IF it.idx \in fs.ns THEN "regular" ELSE "absent")
                     ELSE IF it.p = "L" THEN LongKind(fs, it) ELSE KindOf(fs, it.p)
+NoContent == [size |-> 0, og |-> FALSE]
+SetContent(fs, p, v) == IF p \in Tracked THEN [fs EXCEPT !.ct[p] = v] ELSE fs
 Created(fs, it) == IF it.p = "n" THEN [fs EXCEPT !.ns = @ \cup {it.idx}]
                    ELSE IF it.p = "L" THEN [fs EXCEPT !.ls = @ \cup {<<it.len, it.idx>>}]
-                   ELSE SetKind(fs, it.p, "regular")
+                   ELSE SetContent(SetKind(fs, it.p, IF it.perm = 0 THEN "unreadable" ELSE "regular"), it.p, NoContent)
 
 (* ---- Open: one item.  MkdirAll of the parent first (it stays even if the item fails),  *)
 (* then: a descriptor iff the path is a regular file, or is absent and the flags create;  *)
 (* a final-component symlink is never followed, nothing that is not a regular file is     *)
 (* opened (so the call cannot block), nothing is created through a dangling link.         *)
+(* O_CREAT|O_EXCL refuses an existing file; O_TRUNC empties it; a created file has Perm.     *)
 OpenItem(fs, it) ==
   LET fs1 == IF it.mk /\ it.p = "c" /\ fs.sub = "absent" THEN [fs EXCEPT !.sub = "dir", !.c = "absent"] ELSE fs
       k   == ItemKind(fs1, it)
-  IN IF k \in {"regular", "unreadable"} THEN [r |-> "fd", k |-> k, fs |-> fs1]
+      F   == Flags(it.mode)
+  IN IF k \in {"regular", "unreadable"}
+       THEN IF {"CREAT", "EXCL"} \subseteq F THEN [r |-> "err", k |-> k, fs |-> fs1]
+            ELSE [r |-> "fd", k |-> k, fs |-> IF "TRUNC" \in F THEN SetContent(fs1, it.p, NoContent) ELSE fs1]
      ELSE IF k = "absent" /\ Creat(it.mode) THEN [r |-> "fd", k |-> k, fs |-> Created(fs1, it)]
      ELSE [r |-> "err", k |-> k, fs |-> fs1]
+
+(* a write of TokenLen bytes through a descriptor opened with mode m, fresh from Open (offset 0) *)
+WriteThrough(fs, p, m) ==
+  LET c == fs.ct[p] IN
+  IF "APPEND" \in Flags(m) THEN [fs EXCEPT !.ct[p] = [size |-> c.size + TokenLen, og |-> c.og]]     \* old + new
+  ELSE [fs EXCEPT !.ct[p] = [size |-> IF c.size > TokenLen THEN c.size ELSE TokenLen, og |-> FALSE]] \* overwrites the start
 
 (* a batch is processed in order; result i belongs to item i *)
 OpenBatch(fs, items) ==
